@@ -48,6 +48,15 @@ def base_form(rng):
         ln = next(iter(f.choices))
         f.survey.append(Row("group", "begin group", "tl_grp", {"label": "TL", "appearance": "table-list"},
                             [Row("q", f"select_one {ln}", "tl_a", {"label": "a"}), Row("q", f"select_one {ln}", "tl_b", {"label": "b"})]))
+    # documented settings flags (so that their yes/no spellings can be exchanged)
+    if rng.random() < 0.35:
+        ln = next(iter(f.choices))
+        if len(f.choices[ln]) >= 1:
+            dup = dict(f.choices[ln][0])
+            f.choices[ln].append(dup)
+            f.settings["allow_choice_duplicates"] = rng.choice(["yes", "true", "TRUE"])
+    if rng.random() < 0.25 and "public_key" not in f.settings:
+        f.settings["omit_instanceID"] = rng.choice(["yes", "no", "false", "true"])
     return f
 
 
@@ -203,7 +212,7 @@ def run_shard(ctx):
         if not done:
             ctx.ctr("no_applicable_transformation")
             continue
-        fmt = "xlsx" if i % 5 == 0 else "dict"
+        fmt = "xlsx" if i % 5 == 0 else ("xls" if i % 10 == 7 else "dict")
         compare_steps(ctx, form, sheets, steps, common.feature_sig(form), fmt)
         if i < 3:
             ctx.sample({"transformations": done, "row_shift": {k: list(v) for k, v in shift.items()},
